@@ -1,0 +1,22 @@
+//go:build verif
+
+// Machine-checked contracts for package remotecmd (comment-only; see /verif/DESIGN.md).
+
+package remotecmd
+
+//@ func (*client).buildRequest
+//@   property C09
+//@   ghost stream io.Reader = nil
+//@   ghost fresh bool = false
+//@   ghost wrapped bool = false
+//@   on call invoke ReaderGetter.GetReader(b) ret (s, e): stream = s; fresh = (e == nil && b == bodyFile)
+//@   on call io.NopCloser(s) ret (c): wrapped = (fresh && s == stream)
+//@   ensures @body_is_a_fresh_stream_of_the_transform ret1 == nil && bodyFile != nil ==> fresh && wrapped
+//@
+//@ func (*client).doRequest
+//@   property C09
+//@   ghost built *http.Request = nil
+//@   ghost builtOK bool = false
+//@   on call (*client).buildRequest(_, _, _, _, _, _, bf) ret (r, e): built = r; builtOK = (e == nil && bf == bodyFile)
+//@   before call (*net/http.Client).Do(_, req): assert @every_attempt_sends_a_freshly_built_request builtOK && req == built
+//@   on call (*net/http.Client).Do(_, _) ret (r, e): builtOK = false
